@@ -22,6 +22,8 @@ func init() {
 			ruleMultiStream(c, r, "")
 			ruleXZReaderChecks(c, r, "")
 			ruleRawEOFFlag(c, r, "")
+			ruleReadAdvance(c, r, "")
+			ruleBlockReadOnlySize(c, r, "")
 			ruleCounting(c, r, "", "read")
 			ruleDecoderReadErr(c, r, "")
 			ruleReadInvokes(c, r, "")
